@@ -59,7 +59,7 @@ def gen_case(rng, ver, tier, force=None):
         if all(o is None for o in opts):
             opts[0] = {"rails": {"input": False}}
     api = "state" if (ver == "v1" and rng.random() < 0.3) else "messages"
-    return {"spec": spec, "turns": turns, "kinds": kinds, "V": V, "cid": "c%d" % rng.randint(0, 10**6), "fault": None, "opts": opts, "api": api}
+    return {"spec": spec, "turns": turns, "kinds": kinds, "V": V, "cid": "c%d" % rng.randint(0, 10**6), "fault": None, "opts": opts, "api": api, "tx": rng.choice([0, 0, 1, 2, 3])}
 
 
 def expected_action_calls(case):
@@ -80,8 +80,13 @@ def expected_action_calls(case):
     return n, per_turn
 
 
+TEXT_FAMILIES = ("", "$5 off ", 'say "hi" {x} $y ', "it's 100% <b>&amp;</b> ")
+
+
 def user_text(case, t):
-    base = "SECRET-%s-%d " % (case["cid"], t)
+    # the unique token stays in the text; a family prefix makes the message start with / contain characters that mean
+    # something to Colang, to the prompt templates or to the event-creation code
+    base = TEXT_FAMILIES[case.get("tx", 0) % len(TEXT_FAMILIES)] + "SECRET-%s-%d " % (case["cid"], t)
     return base + ("fixedq" if case["kinds"][t] == "fixed" else "something")
 
 
